@@ -334,7 +334,8 @@ def build_vmdk(lines=VMDK_DEFAULT_LINES, version=1, capacity=20480,
         text = desc_raw
     need = max(1, -(-len(text) // 512))
     dnum = need if desc_num is None else desc_num
-    gd = GD_AT_END if footer else (desc_off + dnum)
+    gd_real = min(desc_off + dnum, 2 ** 64 - 2)
+    gd = GD_AT_END if footer else gd_real
     hdr = vmdk_header(sig=sig, version=version, capacity=capacity,
                       desc_off=desc_off, desc_num=dnum, gd=gd, fill=hdr_fill)
     buf = bytearray(hdr)
@@ -359,7 +360,7 @@ def build_vmdk(lines=VMDK_DEFAULT_LINES, version=1, capacity=20480,
         eos = vmdk_marker(fo.pop('eos_val', 0), fo.pop('eos_size', 0),
                           fo.pop('eos_typ', 0), fo.pop('eos_pad', b'\0'))
         fkw = dict(sig=sig, version=version, capacity=capacity,
-                   desc_off=desc_off, desc_num=dnum, gd=desc_off + dnum,
+                   desc_off=desc_off, desc_num=dnum, gd=gd_real,
                    fill=hdr_fill)
         bad_footer = bool(footer_over)
         fkw.update(fo)
